@@ -232,7 +232,15 @@ Definition view_meta (view : Z) : bool := (view =? 3) || (view =? 20).
 Definition view_known (view : Z) : bool :=
   (view =? 0) || (view =? 1) || (view =? 2) || (view =? 3) || (view =? 10) || (view =? 20).
 
-Definition v1_get (st : state) (p : perms) (path : list Z) (view : Z) : reply :=
+(* the fields of a Get entry: those of the view (combine_view_and_fields) joined with the explicitly requested
+   ones (mask: 1 Value, 2 ActuatorTarget, 4 Metadata); View::Unspecified stands for CurrentValue only when no
+   field is named *)
+Definition get_value_field (view mask : Z) : bool :=
+  Z.testbit mask 0 || (view =? 1) || (view =? 20) || ((view =? 0) && (mask =? 0)).
+Definition get_target_field (view mask : Z) : bool := Z.testbit mask 1 || view_target view.
+Definition get_meta_field (view mask : Z) : bool := Z.testbit mask 2 || view_meta view.
+
+Definition v1_get_fields (st : state) (p : perms) (path : list Z) (view mask : Z) : reply :=
   if too_long path then REntries 400 []
   else if negb (matcher_accepts path) then REntries 400 []
   else if negb (view_known view) then RStatus INVALID_ARGUMENT
@@ -245,16 +253,20 @@ Definition v1_get (st : state) (p : perms) (path : list Z) (view : Z) : reply :=
       | [] => REntries 404 []
       | _ =>
         let readable e := match can_read p (st_now st) (path_segs (e_meta e)) with POk => true | _ => false end in
-        let wants_data := view_value view || view_target view in
+        let wv := get_value_field view mask in
+        let wt := get_target_field view mask in
+        let wm := get_meta_field view mask in
+        let wants_data := wv || wt in
         let denied := wants_data && existsb (fun e => negb (readable e)) sel in
         if denied then REntries (if expired p (st_now st) then 401 else 403) []
         else REntries 0
                (flat_map (fun e =>
-                            if view_meta view || (wants_data && readable e)
-                            then [(e, view_value view, view_target view, view_meta view, readable e)]
+                            if wm || (wants_data && readable e)
+                            then [(e, wv, wt, wm, readable e)]
                             else []) sel)
       end
     end.
+Definition v1_get (st : state) (p : perms) (path : list Z) (view : Z) : reply := v1_get_fields st p path view 0.
 
 (* ---------- subscriptions through the handlers ----------
    The handlers select ids and fields and then call the core `subscribe`; what the subscriber is sent
@@ -299,6 +311,36 @@ Definition v1_subscribe (st : state) (p : perms) (path : list Z) (fl : fields) :
   match v1_sub_entries st p path fl with
   | inr code => (st, inr code)
   | inl es => core_subscribe st p es None
+  end.
+
+(* several SubscribeEntries in one request: each is expanded as above (the first failure is the answer); a
+   signal selected by more than one entry is subscribed with the union of their fields *)
+Definition fields_union (a b : fields) : fields :=
+  {| f_dp := f_dp a || f_dp b; f_target := f_target a || f_target b; f_unit := f_unit a || f_unit b |}.
+Fixpoint merge_entry (id : Z) (fl : fields) (acc : list (Z * fields)) : list (Z * fields) :=
+  match acc with
+  | [] => [(id, fl)]
+  | (i, f) :: r => if i =? id then (i, fields_union f fl) :: r
+                   else if id <? i then (id, fl) :: (i, f) :: r
+                   else (i, f) :: merge_entry id fl r
+  end.
+Fixpoint v1_sub_all (st : state) (p : perms) (l : list (list Z * fields)) (acc : list (Z * fields))
+  : list (Z * fields) + Z :=
+  match l with
+  | [] => inl acc
+  | (path, fl) :: r =>
+    match v1_sub_entries st p path fl with
+    | inr code => inr code
+    | inl es => v1_sub_all st p r (fold_left (fun a ie => merge_entry (fst ie) (snd ie) a) es acc)
+    end
+  end.
+Definition v1_subscribe_multi (st : state) (p : perms) (l : list (list Z * fields)) : state * (Z + Z) :=
+  match l with
+  | [] => (st, inr INVALID_ARGUMENT)
+  | _ => match v1_sub_all st p l [] with
+         | inr code => (st, inr code)
+         | inl es => core_subscribe st p es None
+         end
   end.
 
 (* kuksa.val.v2 Subscribe / SubscribeById: every signal is resolved first (the first failure is the
